@@ -5,9 +5,9 @@ From Coq Require Import ZArith QArith List Bool.
 From PAFC04 Require Import Gen Model Proofs.
 Import ListNotations.
 
-Definition m1 : @model Q := Build_model [(0, 10)] [OPrior 0%nat; OConst (1 # 2)] [].
+Definition m1 : @model Q := Build_model [(0, 10)] [OPrior 0%nat; OConst (1 # 2)] [] false.
 Definition m2 : @model Q := Build_model [(0, 10); (0, 10)] [OPrior 1%nat; OPrior 0%nat]
-                                         [Build_assertion true (OPrior 0%nat) (OPrior 1%nat)].
+                                         [Build_assertion true (OPrior 0%nat) (OPrior 1%nat)] false.
 Definition L1 : @lik Q := fun inst => LRet (nth 0 inst 0) false.          (* ll = first slot *)
 Definition Lboxed : @lik Q := fun inst => LRet (nth 0 inst 0) true.       (* ... as a 0-d array *)
 Definition Lfail : @lik Q := fun inst => if Qle_bool 3 (nth 0 inst 0) then LRaise else LRet (nth 0 inst 0) false.
@@ -64,6 +64,24 @@ Lemma constructor_refuted :
   exists (m : @model Q) L lp fl r h pbuf, construct_via_call numQ buggy_impl m L lp fl r true (fresh h) pbuf = None.
 Proof. exists m1, L1, lp1, like_chi2_hist, (-1), [[1]], 0%nat. vm_compute. reflexivity. Qed.
 
+(* USE_JAX=1: the limit check is skipped, an out-of-limit vector is evaluated like any other *)
+Definition m1_jax : @model Q := Build_model [(0, 10)] [OPrior 0%nat; OConst (1 # 2)] [] true.
+Lemma jax_limits_refuted :
+  exists (m : @model Q) L lp fl r vec,
+    length vec = prior_count m /\ limits_ok numQ (m_limits m) vec = false /\
+    call_value numQ m L lp fl r vec <> Returned r.
+Proof.
+  exists m1_jax, L1, lp1, post_chi2_hist, (-1), [11]. repeat split; vm_compute; try reflexivity.
+  intro H. discriminate H.
+Qed.
+
+(* the pyswarms fitness consults no flag and converts the resample value: both differ from the plain fitness *)
+Lemma pyswarms_flags_refuted :
+  exists fl (lp : @lprior Q) vec ll, ~ ps_merit numQ lp vec ll == merit numQ fl lp vec ll.
+Proof. exists like_chi2_hist, lp1, [1], 1. vm_compute. intro H. discriminate H. Qed.
+Lemma pyswarms_resample_refuted : exists r : Q, ~ p_res numQ r == r.
+Proof. exists 1. vm_compute. intro H. discriminate H. Qed.
+
 (* --- non-vacuity --- *)
 Example success_exists : evaluate numQ m1 L1 [1] = EvOk 1 false.
 Proof. vm_compute. reflexivity. Qed.
@@ -93,6 +111,9 @@ Example constructor_direct_leaves_history_empty :
 Proof. split; vm_compute; reflexivity. Qed.
 Example constructor_early_records_sanity_evaluation :
   option_map (view (V := Q)) (construct_via_call numQ repaired_impl m1 L1 lp1 like_chi2_hist (-1) false (fresh [[1]]) 0%nat) = Some [([1], 1)].
+Proof. vm_compute. reflexivity. Qed.
+Example pickle_round_trip_keeps_history :
+  view (fst (run numQ buggy_impl m1 L1 lp1 post_chi2_hist (-1) false (fresh [[1]]) [OCall 0%nat; OPickle; OWrite 0%nat [5]])) = [([1], 1)].
 Proof. vm_compute. reflexivity. Qed.
 Example pyswarms_batch_value :
   snd (run numQ buggy_impl m1 L1 lp1 post_chi2_hist (-1) true (fresh [[1]; [11]]) [OBatch [0%nat; 1%nat; 0%nat]]) =
